@@ -66,6 +66,12 @@ BinOp(op, ty, a, b, heap) ==
     ELSE IF ty = "list" THEN
         \* lists compare by content (a == b holds for two handles of one list too)
         CASE op = "eq" -> heap[a.ref] = heap[b.ref] [] op = "ne" -> heap[a.ref] # heap[b.ref]
+    ELSE IF ty = "flist" THEN
+        \* lists of floats: element by element with the float comparison (-0.0 == 0.0, NaN equals nothing);
+        \* only used for two DIFFERENT lists (whether a list holding a NaN equals itself is not documented)
+        LET x == heap[a.ref]  y == heap[b.ref]
+            same == Len(x) = Len(y) /\ \A j \in 1..Len(x) : FEq(x[j], y[j])
+        IN CASE op = "eq" -> same [] op = "ne" -> ~same
     ELSE IF ty = "char" THEN
         CASE op = "eq" -> a = b [] op = "ne" -> a # b
           [] op = "lt" -> a < b [] op = "le" -> a <= b [] op = "gt" -> a > b [] op = "ge" -> a >= b
@@ -288,7 +294,10 @@ Ev(prog, e, st) ==
                                           V(as.st, IF i >= 0 /\ i < Len(s) THEN Some(s[i + 1]) ELSE None)
                         [] e.m = "len" -> V(as.st, FromNat(Len(s), 8))
                         [] e.m = "is_empty" -> V(as.st, Len(s) = 0)
-                        [] e.m = "contains" -> V(as.st, \E j \in 1..Len(s) : s[j] = as.v[1])
+                        [] e.m = "contains" ->
+                              V(as.st, IF "ety" \in DOMAIN e /\ e.ety \in FloatTys
+                                       THEN \E j \in 1..Len(s) : FEq(s[j], as.v[1])
+                                       ELSE \E j \in 1..Len(s) : s[j] = as.v[1])
                         [] e.m = "concat" ->
                               V([as.st EXCEPT !.heap = Append(@, s \o h[as.v[1].ref])], [ref |-> Len(h) + 1])
                         [] e.m = "swap" ->
